@@ -233,6 +233,40 @@ func (c *ctx) crashes(p pre, o Op) {
 		if got != preKey {
 			c.sec.Nontrivial++
 		}
+		// life goes on after the crash: restart, perform further operations (one that shrinks and one that
+		// grows the file), restart again; whatever the interrupted save left behind must not get in the way
+		if got == preKey || got == postKey {
+			for _, follow := range [][]Op{{{Kind: "delete", Name: "a"}}, {{Kind: "put", Name: "zz-after-crash", Value: "a value that makes the file longer than before"}, {Kind: "delete", Name: "zz-after-crash"}}} {
+				if err := fsx.Materialize(rdir, v); err != nil {
+					panic(err)
+				}
+				d2, err := db.Open(filepath.Join(rdir, "db"), kek, hx.Discard())
+				if err != nil {
+					break
+				}
+				m2 := hx.ToModel(d2)
+				bad := false
+				for _, f := range follow {
+					if _, err := apply(d2, f); err != nil {
+						c.fail("operation-after-crash-fails", p, []Op{o, f}, fmt.Sprintf("%s, restart, then %v: %v", v.Desc, f, err), map[string]any{"pre": p.name, "op": o, "crash": v.Desc, "follow": f})
+						bad = true
+						break
+					}
+					applyModel(m2, f)
+				}
+				if bad {
+					continue
+				}
+				c.sec.Evaluations++
+				c.sec.Extra["post_crash_followups"]++
+				if k := hx.DumpKey(d2); k != m2.Key() {
+					c.fail("state-after-crash-and-followup", p, append([]Op{o}, follow...), fmt.Sprintf("%s, restart, then %v: database holds %s, model %s", v.Desc, follow, k, m2.Key()), nil)
+				}
+				if got2, err := recoverDump(rdir); err != nil || got2 != m2.Key() {
+					c.fail("unreadable-after-crash-and-followup", p, append([]Op{o}, follow...), fmt.Sprintf("%s, restart, then %v (acknowledged), restart: the database opens as %q err=%v, model %s", v.Desc, follow, got2, err, m2.Key()), map[string]any{"pre": p.name, "op": o, "crash": v.Desc, "follow": follow})
+				}
+			}
+		}
 	}
 }
 
